@@ -11,6 +11,7 @@ import AnthemModel.Props.C05
 import AnthemModel.Props.C19
 import AnthemModel.Model.Strong
 import AnthemModel.Proofs.StrongSem
+import AnthemModel.Proofs.PropRename
 namespace Anthem.C03
 open Asp
 
@@ -181,13 +182,53 @@ theorem strongly_equivalent_iff (t : StrongTask)
     · exact hR ((hall M hs).mp hL)
     · exact hL ((hall M hs).mpr hR)
 
-/-- Why `NoSymbolConflict` is a hypothesis (known finding): for `p. q :- tp_ < tp.` vs `p. q.` the
-    constant `tp` collides with the t-copy of `p/0` and is renamed `tp__s`; `tp < tp_` but
-    `tp_ < tp__s`, so the emitted problems speak about a different order than the programs. -/
-theorem rename_changes_order_witness :
-    strongRenameIssues ⟨[⟨.basic ⟨"p", []⟩, []⟩, ⟨.basic ⟨"q", []⟩, [.cmp .lt (.pre (.sym "tp_")) (.pre (.sym "tp"))]⟩],
-      [⟨.basic ⟨"p", []⟩, []⟩, ⟨.basic ⟨"q", []⟩, []⟩], .sequential, .universal, .tauStar, false, false⟩ 8 =
-      some [("tp", "tp_"), ("tp", "tp_")] := by decide
+/-- **C03 without the side condition** (since the repair of the symbol-order defect,
+    `rename_conflicting_symbols` renames the clashing *propositional predicate* and leaves symbolic
+    constants - and hence their order - alone). For the two processed theories of the task: some emitted
+    problem is refuted by the classical interpretation `J` iff, in a requested direction, the
+    here-and-there interpretation merged by `J` *read through the renaming of that direction's problem*
+    (`propReading`: a renamed h- or t-copy of a propositional predicate is read at its new name) has
+    `H ⊆ T` on the programs' predicates and satisfies one program but not the other. -/
+theorem strong_refutes_with_renaming (t : StrongTask) (fuel : Nat) (ps : List Problem)
+    (h : strongProblems t fuel = some ps)
+    (hpl : globalsPanic t.left = false) (hpr : globalsPanic t.right = false) :
+    ∃ l r, processTheory t fuel t.left = some l ∧ processTheory t fuel t.right = some r ∧
+      ∀ (J : Interp) (MF MB : HTI),
+        C05.Merges ⟨propReading (directionProblem0 "forward" (transitionAxioms t) l r "left_" "right_").propRenaming
+          J.pred, J.fc⟩ MF →
+        C05.Merges ⟨propReading (directionProblem0 "backward" (transitionAxioms t) r l "right_" "left_").propRenaming
+          J.pred, J.fc⟩ MB →
+        ((t.simplify = true ∨ t.rep = .mu) → MF.Sub ∧ MB.Sub) → ∀ ρ : Asg,
+        ((∃ P ∈ ps, Refutes J ρ P) ↔
+          ((t.direction = .universal ∨ t.direction = .forward) ∧
+              SubOn MF (ext t.left.preds t.right.preds) ∧
+              progSat MF .here t.left ∧ ¬ progSat MF .here t.right) ∨
+          ((t.direction = .universal ∨ t.direction = .backward) ∧
+              SubOn MB (ext t.left.preds t.right.preds) ∧
+              progSat MB .here t.right ∧ ¬ progSat MB .here t.left)) :=
+  strong_refutes_renamed t fuel ps h hpl hpr
+
+/-- the names given to clashing propositional predicates are free (no symbolic constant, predicate symbol
+    or placeholder of the problem has them) and pairwise different, so reading an interpretation through
+    the renaming loses nothing -/
+theorem clashing_predicates_get_free_names (p : Problem) :
+    (∀ x ∈ p.propRenaming, x.2 ∉ p.occupiedNames) ∧ p.propRenaming.Pairwise fun x y => x.2 ≠ y.2 :=
+  propRenaming_fresh p
+
+/-- the problems of a task, as `(name, symbolic constants, predicate names)` -/
+def problemNames (t : StrongTask) : Option (List (String × List String × List String)) :=
+  (strongProblems t 8).map fun ps => ps.map fun p => (p.name, p.symbols, p.preds.map (·.symbol))
+
+/-- **Repaired defect (symbol order).** For `p. q :- tp_ < tp.` against `p. q.` the constant `tp` collides
+    with the t-copy of `p/0`. It used to be renamed `tp__s` - but `tp < tp_` whereas `tp_ < tp__s`, so the
+    emitted problems spoke about another order than the programs and every problem was valid although the
+    programs are not strongly equivalent. Now the predicate is renamed (`tp_p`) and the constants `tp_`,
+    `tp` keep their names. -/
+theorem rename_keeps_symbols_witness :
+    problemNames ⟨[⟨.basic ⟨"p", []⟩, []⟩, ⟨.basic ⟨"q", []⟩, [.cmp .lt (.pre (.sym "tp_")) (.pre (.sym "tp"))]⟩],
+      [⟨.basic ⟨"p", []⟩, []⟩, ⟨.basic ⟨"q", []⟩, []⟩], .sequential, .forward, .tauStar, false, false⟩ =
+      some [("forward_0", ["tp_", "tp"], ["hp", "tp_p", "hq", "tq"]),
+            ("forward_1", ["tp_", "tp"], ["hp", "tp_p", "hq", "tq"])] := by decide
 
 /-- Non-vacuity of the hypotheses: a task with a symbolic constant and variables satisfies
     `NoSymbolConflict` and the pass bound (kernel-evaluated). -/
